@@ -755,7 +755,12 @@ class TFLiteSupportedOperators:
         ofm_shape = op.ofm.shape
         size_h, size_w = None, None
         # check that the size tensor (the second input) exists, is not none, and has the correct values
-        if len(op.inputs) == 2 and op.inputs[1] is not None and len(op.inputs[1].values) == 2:
+        if (
+            len(op.inputs) == 2
+            and op.inputs[1] is not None
+            and op.inputs[1].values is not None
+            and len(op.inputs[1].values) == 2
+        ):
             size_h, size_w = op.inputs[1].values
             # check size and output size match
             if size_h == ofm_shape[1] and size_w == ofm_shape[2]:
